@@ -29,7 +29,7 @@ RULE = ("case = strategy (6 + FunctionRFA with suppliers returning float / 0-d a
 REQUIRED_MONITORS = ["rfa_post", "c04:reject"]
 ASSUMPTIONS = ["x strictly increasing and finite, y finite, strategy parameters in the documented ranges"]
 NSHARDS = 16
-SUPPLIERS = ["float", "zero_d", "npscalar", "pchip", "const", "reduce", "branching", "poly1d_deg0", "poly1d_deg2", "falsy_object"]
+SUPPLIERS = ["float", "zero_d", "npscalar", "pchip", "const", "reduce", "branching", "poly1d_deg0", "poly1d_deg2", "falsy_object", "logistic", "log_floor"]
 
 
 def plan(tier, seed):
@@ -55,6 +55,16 @@ def supplier(kind):
                 if len(xa) >= 2 else np.poly1d([float(np.mean(y))])
         if kind == "falsy_object":
             return _Falsy(float(np.mean(y)))
+        # finite everywhere, but not flag-free on the way: a steep logistic ramp (exp overflows, 1 / inf = 0) and a
+        # logarithm with a floor (log of a non-positive number is -inf / nan before the floor applies)
+        if kind == "logistic":
+            xa = np.asarray(x, dtype=float)
+            t0, tau = float(xa[len(xa) // 2]), max(float(xa[-1] - xa[0]), 1e-300) / 4000.0
+            lo_, hi_ = float(np.min(y)), float(np.max(y))
+            return lambda t: lo_ + (hi_ - lo_) / (1.0 + np.exp(-(np.float64(t) - t0) / tau))
+        if kind == "log_floor":
+            x0_ = float(np.asarray(x, dtype=float)[0])
+            return lambda t: float(np.fmax(np.log10(np.float64(t) - x0_), -3.0))
         if kind == "reduce":
             xa, ya = np.asarray(x, dtype=float), np.asarray(y, dtype=float)
             return lambda t: float(np.mean(ya[np.clip(np.searchsorted(xa, t), 0, len(ya) - 1)]))
